@@ -73,24 +73,36 @@ func bterm(tv TV) string {
 
 func (w *World) pkgByName(name string, from *types.Package) *types.Package {
 	if from != nil {
+		// the names the package's own source files use: import aliases, else the imported package's name
+		if pp := w.byPath[from.Path()]; pp != nil {
+			byPath := map[string]*types.Package{}
+			for _, imp := range from.Imports() {
+				byPath[imp.Path()] = imp
+			}
+			for _, f := range pp.Syntax {
+				for _, is := range f.Imports {
+					imp := byPath[strings.Trim(is.Path.Value, "\"")]
+					if imp == nil {
+						continue
+					}
+					local := imp.Name()
+					if is.Name != nil {
+						local = is.Name.Name
+					}
+					if local == name {
+						return imp
+					}
+				}
+			}
+		}
 		for _, imp := range from.Imports() {
-			if imp.Name() == name {
+			if imp.Name() == name && strings.HasPrefix(imp.Path(), "github.com/yorkie-team/yorkie") {
 				return imp
 			}
 		}
-		// import aliases of the package's own source files (e.g. api "…/api/yorkie/v1")
-		if pp := w.byPath[from.Path()]; pp != nil {
-			for _, f := range pp.Syntax {
-				for _, is := range f.Imports {
-					if is.Name != nil && is.Name.Name == name {
-						path := strings.Trim(is.Path.Value, "\"")
-						for _, imp := range from.Imports() {
-							if imp.Path() == path {
-								return imp
-							}
-						}
-					}
-				}
+		for _, imp := range from.Imports() {
+			if imp.Name() == name {
+				return imp
 			}
 		}
 	}
